@@ -98,7 +98,7 @@ Definition case_ok (c : case) : bool :=
       (* [pre] is the state after buyGas; TransitionDb advances the nonce itself before evm.Call *)
       let s0 := if create then st_of pre
                 else set_nonce (st_of pre) sender (next_nonce (nonce (st_of pre) sender)) in
-      let s1 := run_effect height sender s0 (EFrame (if create then KCreate else KCall) target value ok body) in
+      let s1 := run_effect height 0 sender s0 (EFrame (if create then KCreate else KCall) target value ok body) in
       forallb (acct_ok s1) post
       && forallb (fun x => match find_acct post (a_id x) with Some _ => true | None => acct_ok s1 x end) pre
       && forallb (fun x => Bool.eqb (suicided s1 (a_id x)) (existsb (N.eqb (a_id x)) su)) pre
